@@ -77,6 +77,27 @@ PROPS = {
         "level_text": "Insertion is checked on graphs that have a history, because that is where its defect classes live (index holes in the source, freed indices reused in the target so the mapping is not monotone, ports with several links, order links, metadata). The oracle observes both HUGRs through public queries before and after and checks isomorphism, root placement, frame and source-unmodified independently of the implementation's own mapping logic.",
         "level_note": "Trusted: oracles/iso.py. Later aliasing of metadata dicts between source and target is not asserted (the statement is about the moment of insertion). Operations are compared by identity or dataclass equality.",
     },
+    "C10": {
+        "engine": "C+E", "level": "exploration",
+        "tiers": {"quick": {"batches": 16, "runs": 300, "budget_s": 50, "floor_runs": 1000},
+                  "thorough": {"batches": 64, "runs": 4000, "budget_s": 550, "floor_runs": 40000}},
+        "rule": "one run = a registry-building history on 1-3 extensions through the public API (Extension(...), add_type_def with "
+                "explicit / from-params bounds and any index list, add_op_def with mono / polymorphic / plain-FunctionType / binary "
+                "signatures and requirement lists, add_extension_value, register_op, re-adding under an existing name, adding one "
+                "definition object to a second extension); owner clause after every step; then to_json -> (same process | reader "
+                "node in another interpreter with another PYTHONHASHSEED) -> from_json -> field-by-field comparison and re-serialised "
+                "document == stored document; each emitted document is validated against the published Extension schema. The "
+                "std-lib half (bundled JSON byte-identical to specification/std_extensions, each loads, typed helpers denote existing "
+                "definitions with matching parameters) is a static boot-time comparison evaluated once per batch. non-trivial = >= 3 "
+                "API calls; distinct = distinct event-log digests",
+        "real": ["hugr.ext, hugr._serialization.extension, hugr.std loaders via pkgutil.get_data, set iteration order under the interpreter's hash seed",
+                 "the reader node is a real second interpreter with a different PYTHONHASHSEED"],
+        "stub": ["storage between writer and reader is a pipe owned by the simulator"],
+        "expected_probes": ["ext_with_two_or_more_reqs", "signature_with_two_or_more_reqs", "restart_read", "opdef_added_to_second_extension"],
+        "technique": "seeded registry-building histories, write / restart / read with the reader under a different hash seed (requirement sets are emitted in set-iteration order: the one real nondeterminism in the code base), field-wise and document-fixpoint oracle; static std-lib comparison at boot",
+        "level_text": "The round-trip half is simulated: histories build the extensions, and the second party reads the document in a different interpreter whose hash seed differs, which is exactly where requirement sets serialised in set-iteration order diverge. The std-lib half is a static comparison that rides on the simulation's boot and is labelled as such.",
+        "level_note": "Trusted: the comparison summary (reader_main.ext_summary), oracles/refsem.cpoly for signatures (requirement sets as sets), the published Extension schema. Lowering functions are excluded (as in the statement).",
+    },
     "C12": {
         "engine": "B", "level": "exploration",
         "tiers": {"quick": {"batches": 16, "runs": 200, "budget_s": 50, "floor_runs": 800},
